@@ -183,15 +183,27 @@ def rule_r2(chk, p, t):
     cb = ft.methods.get("getStateChangeCallback")
 
     def f4():
-        cfg = cfg_of(cb)
-        rets = [n for n in cfg.nodes if n.kind == "return"]
-        none_r = [n for n in rets if isinstance(n.ast.value, ast.Constant) and n.ast.value.value is None]
-        thr = [n for n in rets if unparse(n.ast.value) == "self.thrust_func"]
-        conds = [n for n in cfg.nodes if n.kind == "cond" and "self.end_time" in unparse(n.ast)]
-        ok = len(none_r) == 1 and len(thr) == 1 and conds and cfg.must_pass(none_r[0].id, via_edges=[(conds[0].id, True)]) and cfg.must_pass(thr[0].id, via_edges=[(conds[0].id, False)])
-        ok = ok and unparse(conds[0].ast) in (f"fpe_equals(self.end_time - {cb.params[1]}, 0.0)", f"fpe_equals({cb.params[1]}, self.end_time)", f"fpe_equals(self.end_time, {cb.params[1]})", f"{cb.params[1]} >= self.end_time")
+        # path-wise: on every path the returned value is None exactly when the end-of-burn test holds
+        from rsa.terms import NotEvaluable, returned_exprs
+
+        try:
+            paths = returned_exprs(cb)
+        except NotEvaluable as e:
+            raise Undecided(f"getStateChangeCallback: {e}", cb.node)
+        tm = cb.params[1]
+        END = (f"fpe_equals(self.end_time - {tm}, 0.0)", f"fpe_equals({tm}, self.end_time)", f"fpe_equals(self.end_time, {tm})", f"{tm} >= self.end_time")
+        ok = bool(paths)
+        for e, conds in paths:
+            at_end = None
+            for c, pol in conds:
+                if unparse(c) in END:
+                    at_end = pol
+            is_none = isinstance(e, ast.Constant) and e.value is None
+            is_thr = unparse(e) == "self.thrust_func"
+            if at_end is None or not ((at_end and is_none) or (not at_end and is_thr)):
+                ok = False
         if ok:
-            r.ok(cb.qualname, "None at the burn end, the thrust function otherwise", cb.loc())
+            r.ok(cb.qualname, "None at the burn end, the thrust function otherwise (path-wise)", cb.loc())
         else:
             r.violation(cb.qualname, "callback", "getStateChangeCallback does not return None exactly at the burn end and the thrust function otherwise", cb.loc())
 
